@@ -78,11 +78,18 @@ def _pipeline_info(pipe, data, context, former_data=None):
 
         final_hat = False
         if pipe.remainder == "passthrough":
-            keys = list(data)
-            merged = set()
-            for _, _, vs in pipe.transformers:
-                merged.update(keys[v] if isinstance(v, int) else v for v in vs)
-            new_data = OrderedDict([(k, v) for k, v in data.items() if k not in merged])
+            if isinstance(data, dict):
+                keys = list(data)
+                merged = set()
+                for _, _, vs in pipe.transformers:
+                    merged.update(keys[v] if isinstance(v, int) else v for v in vs)
+                new_data = OrderedDict(
+                    [(k, v) for k, v in data.items() if k not in merged]
+                )
+            else:
+                # the column names are unknown after a transformation:
+                # every incoming name feeds the remainder
+                new_data = OrderedDict([(k, k) for k in data])
 
             info = _pipeline_info(
                 "passthrough", new_data, context, former_data=new_data
